@@ -563,7 +563,9 @@ func (vc *VC) isNil(x Term, pos token.Pos) Term {
 	case "slice", "map":
 		return Term{fmt.Sprintf("(isnil.%s %s)", x.Sort, x.S), SBool, nil}
 	case "opaque":
-		vc.ss.declare(&sortInfo{Name: Sort("isnil$" + string(x.Sort)), Kind: "const", Decl: fmt.Sprintf("(declare-fun isnil.%s (%s) Bool)", x.Sort, x.Sort)})
+		// the zero value of an opaque reference sort is nil
+		vc.ss.declare(&sortInfo{Name: Sort("zero$" + string(x.Sort)), Kind: "const", Decl: fmt.Sprintf("(declare-const zero.%s %s)", x.Sort, x.Sort)})
+		vc.ss.declare(&sortInfo{Name: Sort("isnil$" + string(x.Sort)), Kind: "const", Decl: fmt.Sprintf("(declare-fun isnil.%s (%s) Bool)\n(assert (isnil.%s zero.%s))", x.Sort, x.Sort, x.Sort, x.Sort)})
 		return Term{fmt.Sprintf("(isnil.%s %s)", x.Sort, x.S), SBool, nil}
 	}
 	vc.unsupportedf(pos, "nil comparison on %s", si.Kind)
@@ -612,6 +614,16 @@ func (vc *VC) eqLit(x Term, lit string, litTerm Term) Term {
 
 func (vc *VC) deref(p Term, st *State, pos token.Pos) Term {
 	si := vc.ss.info[p.Sort]
+	if si != nil && si.Kind == "opaque" && p.T != nil {
+		// pointer into a recursive data structure (opaque reference): the target
+		// is unknown, but the nil check is still an obligation
+		if pt, ok := types.Unalias(p.T).Underlying().(*types.Pointer); ok {
+			if vc.safety {
+				vc.oblige("safe:nil-deref", "", pos, st.pc, tNot(vc.isNil(p, pos)), "pointer is non-nil")
+			}
+			return vc.unknown("deref", pt.Elem())
+		}
+	}
 	if si == nil || si.Kind != "ptr" {
 		vc.unsupportedf(pos, "dereference of %s", p.Sort)
 		if p.T != nil {
